@@ -72,6 +72,21 @@ class Resolver:
         self._stack: list[Def] = []
 
 
+    def _is_namespace(self, dotted_name: str) -> bool:
+        """Modules and classes are namespaces (attribute access yields another global); instances are not."""
+        pkg = self.program.package
+        if not (dotted_name == pkg or dotted_name.startswith(pkg + ".")):
+            return True  # external modules / builtins: numpy.where, heapq.heappush, operator.lt
+        if dotted_name in self.program.modules:
+            return True
+        parts = dotted_name.split(".")
+        # fuzzylite.<module>.<Class>[.<Inner>...]
+        for i in range(len(parts), 1, -1):
+            if ".".join(parts[:i]) in self.program.modules:
+                qual = ".".join(parts[i:])
+                return qual in self.program.classes
+        return False
+
     # ---------------------------------------------------------------- names
     def _global(self, name: str) -> Term:
         return ("global", self.program.resolve_global(name, self.mod))
@@ -148,7 +163,7 @@ class Resolver:
         if isinstance(e, ast.Attribute):
             d = dotted(e)
             base = self.term(e.value, node)
-            if base[0] == "global":
+            if base[0] == "global" and self._is_namespace(base[1]):
                 return ("global", f"{base[1]}.{e.attr}")
             return ("attr", base, e.attr)
         if isinstance(e, ast.Call):
